@@ -692,6 +692,7 @@ func runC05(c *Check) {
 	c.ruleAccumulatorSelfAppend("R10", "state.(*MemPool).AddTransaction", "state.appendIfNotContained")
 	c.ruleSpliceRemovesOne("R11", 1, "state")
 	c.ruleNewEntriesRegistered("R12")
+	c.ruleAccumulatorNeverAliasesIndex("R13")
 
 	// ---- R7 lockset
 	c.lockset("R7", "state", "MemPool", "mutex", c.structFields("state", "MemPool", "mutex"), []string{"state"}, nil, 20)
